@@ -2,6 +2,7 @@
 
 R05.1 atomic publish per data class (effect summaries with symbolic path targets);  R05.2 failure path of Task.data
 (must-pass-through on exception edges);  R05.3 type check dominates save;  R05.4 work directories set aside / kept.
+R05.9 the failure handler also covers a run aborted by a BaseException;  R05.10 a temporary file is closed before it is published.
 """
 from __future__ import annotations
 
